@@ -920,13 +920,23 @@ func (g *G) deferAfterReturnedSlot(c *gctx) []*N {
 	fn := fmt.Sprintf("dr%d", g.nextFn)
 	v1, v2 := g.val(), g.val()
 	var body []*N
-	switch g.n(0, 2, "drform") {
+	switch g.n(0, 3, "drform") {
 	case 0:
 		g.feat("deferred_call_assigns_the_returned_list_element")
 		body = []*N{
 			{K: "let", Ps: []string{"la"}, Ns: []*N{{K: "list", Ns: []*N{v1, g.val()}}}},
 			{K: "defer", Ns: []*N{{K: "acall", Ns: []*N{{K: "fn", Ss: [][]*N{{{K: "letidx", Ns: []*N{Id("la"), Int(0), v2}}, {K: "expr", Ns: []*N{P1(g.id(), &N{K: "idx", Ns: []*N{Id("la"), Int(0)}})}}, {K: "ret"}}}}}}}},
 			{K: "ret", Ns: []*N{{K: "idx", Ns: []*N{Id("la"), Int(0)}}}},
+		}
+	case 3:
+		// the argument of a deferred call is a list element that is assigned afterwards: the call gets the
+		// value the element had at the defer statement
+		g.feat("deferred_argument_is_an_element_assigned_later")
+		body = []*N{
+			{K: "let", Ps: []string{"la"}, Ns: []*N{{K: "list", Ns: []*N{v1, g.val()}}}},
+			{K: "defer", Ns: []*N{P1(g.id(), &N{K: "idx", Ns: []*N{Id("la"), Int(0)}})}},
+			{K: "letidx", Ns: []*N{Id("la"), Int(0), v2}},
+			{K: "ret", Ns: []*N{{K: "idx", Ns: []*N{Id("la"), Int(1)}}}},
 		}
 	case 1:
 		g.feat("deferred_call_assigns_the_returned_variable")
